@@ -280,7 +280,7 @@ def _mutate_tree(rng, tree, new_fid, i, ops, allow_nul):
     dirs = sorted(f for f, e in tree.items() if e[2] == "directory")
     nonroot = sorted(f for f in tree if f != ROOT_ID)
     op = rng.choice(["modify", "modify", "add", "add", "rename", "move", "delete", "exec", "target", "swap", "kind",
-                     "rename+modify", "adddir"])
+                     "rename+modify", "adddir", "rename-onto-deleted"])
     if op == "modify" and files:
         f = rng.choice(files)
         e = tree[f]
@@ -291,10 +291,13 @@ def _mutate_tree(rng, tree, new_fid, i, ops, allow_nul):
     elif op in ("rename", "rename+modify") and nonroot:
         f = rng.choice(nonroot)
         e = tree[f]
-        data = e[3]
+        data, ex = e[3], e[4]
         if op == "rename+modify" and e[2] == "file":
-            data = mutate_content(rng, data, allow_nul)
-        tree[f] = (e[0], _free_name(rng, tree, e[0], i), e[2], data, e[4])
+            if rng.random() < 0.4:
+                ex = not ex                      # renamed and only the executable bit changes
+            else:
+                data = mutate_content(rng, data, allow_nul)
+        tree[f] = (e[0], _free_name(rng, tree, e[0], i), e[2], data, ex)
     elif op == "move" and nonroot:
         f = rng.choice(nonroot)
         bad = _descendants(tree, f) | {f}
@@ -326,6 +329,14 @@ def _mutate_tree(rng, tree, new_fid, i, ops, allow_nul):
             ea, eb = tree[a], tree[b]
             tree[a] = (ea[0], eb[1], ea[2], ea[3], ea[4])
             tree[b] = (eb[0], ea[1], eb[2], eb[3], eb[4])
+    elif op == "rename-onto-deleted":
+        # `rm a; mv b a`: a leaf is deleted and another entry takes over its name
+        leaves = files + links
+        if len(leaves) >= 2 and len(nonroot) > 2:
+            a, b = rng.sample(leaves, 2)
+            ea, eb = tree[a], tree[b]
+            del tree[a]
+            tree[b] = (ea[0], ea[1], eb[2], eb[3], eb[4])
     elif op == "kind" and (files or links):
         f = rng.choice(files + links)
         e = tree[f]
